@@ -9259,6 +9259,16 @@ class SVG(Group):
         }
 
         if transform is not None:
+            if isinstance(transform, Matrix):
+                # The transforms of the enclosing elements are accumulated as text.
+                transform = "matrix(%s, %s, %s, %s, %s, %s)" % (
+                    transform.a,
+                    transform.b,
+                    transform.c,
+                    transform.d,
+                    transform.e,
+                    transform.f,
+                )
             values[SVG_ATTR_TRANSFORM] = transform
 
         for tag, event, elem in SVG._use_structure_parse(source):
